@@ -14,7 +14,8 @@ C = dict(
         dict(module="TaskLifecycle", cfg="TaskLifecycle_MC2.cfg", tiers=["thorough"], workers=8),
     ],
     plan_sources=[
-        # every history of depth 3 (<= 1 store fault at any call, <= 1 restart, <= 1 probe, <= 1 request without effect):
+        # every history of depth 3 (<= 1 store fault at any call, <= 1 restart, <= 1 probe, <= 1 request without effect;
+        # no settle / hold: those are in the simulated and directed plans):
         # sampled (quick) / all (thorough)
         dict(name="h3s", module="TaskLifecycle", cfg="TaskLifecycle_Plan3S.cfg", params=S, workers=8,
              cap={"quick": 90, "thorough": 100000}),
@@ -38,7 +39,8 @@ C = dict(
     nontrivial=lambda t: any(e.get("ok") and e.get("op") in ("create", "pause", "resume", "delete", "restart")
                              for e in t["events"]),
     rule="plans = complete API histories of TaskLifecycle.tla over 2 tasks on 1 or 2 targets (create/pause/resume/delete/"
-         "get/list with the k-th store call failing, process restart + ReloadTask, settle); exhaustive per configuration "
+         "get/list with the k-th store call failing, process restart + ReloadTask, settle = one second passes, hold/release "
+         "= the MQ registration of a start is blocked until released); exhaustive per configuration "
          "unless capped (then a VERIF_SEED sample), tlc -simulate for the deep ones, plus the directed plans; a trace is "
          "non-trivial if at least one state-changing call succeeded; distinct = distinct event sequences",
     assumptions=[
